@@ -29,7 +29,7 @@ class C06(Property):
     ]
 
     def budget(self, tier):
-        return {"examples": 2400 if tier == "quick" else 100000, "shards": 12 if tier == "quick" else 16}
+        return {"examples": 8000 if tier == "quick" else 100000, "shards": 16}
 
     def strategy(self, tier):
         return T.time_courses(tier=tier)
